@@ -1,13 +1,14 @@
 """Property id -> check function."""
 import json
 
-from . import props_value, props_obs, props_msg, props_decl, props_surface, props_arb
+from . import props_value, props_obs, props_msg, props_decl, props_surface, props_arb, props_api
 
 CHECKS = {
     "C01": props_value.check_C01,
     "C02": props_surface.check_C02,
     "C03": props_value.check_C03,
     "C04": props_obs.check_C04,
+    "C05": props_api.check_C05,
     "C06": props_obs.check_C06,
     "C07": props_value.check_C07,
     "C08": props_decl.check_C08,
